@@ -176,6 +176,8 @@ def _conform_filename(
             emit_func(
                 replacement_node_ir,
                 emit_default_doc=False,  # emit_func.__name__ == "class_"
+                # (a target that is created is named as asked, like one that is replaced)
+                **_default_options(node=None, search=search, type_wanted=type_wanted)()
             ),
             filename=filename,
             mode="wt",
